@@ -10,3 +10,7 @@ check("C04", "exhaustive short payloads over a multi-byte alphabet x all alignme
       "All payloads up to 4 (quick) / 5 (thorough) symbols over 1-4-byte characters and escaped wildcards, for every encoding chain; for base64offset every prefix length 0..5 x suffix length 0..5 with extreme (00/ff) and drawn neighbours, which decides 'implied by the payload alone' because a neighbour-dependent character differs between the extremes.",
       "Trusted: python base64/codecs; 'utf16' = FF FE + UTF-16LE.",
       "DESIGN.md section 3, C04")
+check("C03", "exhaustive modifier chains of length <= 2 x seed values + Hypothesis chains of length <= 4; oracle = literal reference modifier table",
+      "Every chain of length 0..2 over all 33 modifier names on 50 seed values (field and keyword items) plus sampled longer chains and strings over the special alphabet, compared (values with type and content, linking, negation, or rejection with a SigmaError) with a reference table that shares no code with pySigma.",
+      "Trusted: vf/ref/modifiers.py as the specification; ambiguous adjacencies excluded and counted.",
+      "DESIGN.md section 3, C03")
